@@ -104,24 +104,27 @@ Fixpoint vloop (d : data) (blobs : list data) (off : nat) (sm : bool) : list boo
       else (map (fun _ => false) blobs, false)   (* io.EOF: sizeMatches = false; break *)
   end.
 
-Definition total (blobs : list data) : nat := length (concat blobs).
-
-Definition verify (o : opts) (p : pre) (blobs : list data) : fstate_t :=
-  match p with
-  | PReg d _ readable mtime_eq =>
-      if orb readable (o_root o) then
-        let sm := Nat.eqb (total blobs) (length d) in
-        let trust := match o_ow o with OwIfChanged => true | _ => false end in
-        if andb (andb trust mtime_eq) sm then Some ([], true)
-        else Some (vloop d blobs 0 sm)
-      else None
-  | _ => None   (* ENOENT, ELOOP, not a regular file *)
-  end.
-
 Definition needs_restore (st : fstate_t) : bool :=
   match st with
   | None => true
   | Some (ms, sm) => orb (negb sm) (existsb negb ms)
+  end.
+
+Definition total (blobs : list data) : nat := length (concat blobs).
+
+Definition verify (o : opts) (p : pre) (blobs : list data) : fstate_t :=
+  match p with
+  | PReg d hardlinked readable mtime_eq =>
+      if orb readable (o_root o) then
+        let sm := Nat.eqb (total blobs) (length d) in
+        let trust := match o_ow o with OwIfChanged => true | _ => false end in
+        if andb (andb trust mtime_eq) sm then Some ([], true)
+        else
+          let st := Some (vloop d blobs 0 sm) in
+          (* createFile replaces a multiply-linked file by a new empty one: nothing can be reused *)
+          if andb hardlinked (needs_restore st) then None else st
+      else None
+  | _ => None   (* ENOENT, ELOOP, not a regular file *)
   end.
 
 Definition has_match (st : fstate_t) (i : nat) : bool :=
